@@ -88,6 +88,7 @@ func ServeRegistersBackground(fn any) int      { panic("intrinsic") }
 func ServeBackgroundCount() int                { panic("intrinsic") }
 func WarmBegin()                                { panic("intrinsic") }
 func WarmEnd()                                  { panic("intrinsic") }
+func WarmSenderMayFail()                        { panic("intrinsic") }
 func Accepts(cond bool, label string)          { panic("intrinsic") }
 func TablesDropped() int                       { panic("intrinsic") }
 func SchemaExecs() int                         { panic("intrinsic") }
